@@ -530,5 +530,6 @@ func extractC17() *lean {
 	l.def("dagVerifierClosureState", "List String", leanStrList(closureState), closureState)
 	extractC17b(l)
 	extractC17c(l)
+	extractC17d(l)
 	return l
 }
